@@ -622,6 +622,7 @@ def operand_count(X, c):
 
 
 MUTANTS = [
+    ('rekey-while-iterating', 'miasmx/arch/ia32_arch.py', "                    for x in list(tmp_order[1]):", "                    for x in tmp_order[1]:", 'C10.D3'),
     ('dis-new-raise', 'miasmx/arch/ia32_arch.py', "            elif afs == reg:\n                mafs = dict(x86mndb.get_afs_re(c&(0xFF^mask_reg)))\n",
      "            elif afs == reg:\n                if m.modifs[w8]: raise ValueError('todo')\n                mafs = dict(x86mndb.get_afs_re(c&(0xFF^mask_reg)))\n", 'C10.D1'),
     ('dis-except', 'miasmx/arch/ia32_arch.py', "        except IOError:\n            log.warning( \"cannot dis: not enougth bytes\")", "        except EOFError:\n            log.warning( \"cannot dis: not enougth bytes\")", 'C10.D'),
